@@ -226,7 +226,7 @@ static unsigned char *cmask[MAXT][MAXW];
 static unsigned char *cs_pre[MAXW], *cs_in[MAXW];
 static int cs_depth[MAXT];
 static int cur_iso = 0;
-static long g_cs_sections = 0;
+static long g_cs_sections = 0, g_overlap = 0;
 
 void sim_gomp_config(int T, int iso) { cfg_T = T < 1 ? 1 : (T > MAXT ? MAXT : T); cfg_iso = iso; }
 void sim_gomp_decisions(const uint32_t *d, long n) { dec = d; dec_n = n; dec_i = 0; }
@@ -237,11 +237,12 @@ void sim_gomp_set_budget(long b) { cfg_switch_budget = b; }
 void sim_gomp_stats(long *o) {
     o[0] = g_regions; o[1] = g_switch; o[2] = g_barriers; o[3] = g_conflict; o[4] = g_diff;
     o[5] = g_sync_seen; o[6] = g_iso_regions; o[7] = g_watched_bytes; o[8] = g_dec_used;
-    o[9] = g_maxteam; o[10] = g_dyn_chunks; o[11] = g_budget_hit;
+    o[9] = g_maxteam; o[10] = g_dyn_chunks; o[11] = g_budget_hit; o[12] = g_overlap; o[13] = g_cs_sections;
 }
 void sim_gomp_reset_stats(void) {
     g_regions = g_switch = g_barriers = g_conflict = g_diff = g_sync_seen = g_iso_regions = 0;
     g_watched_bytes = g_dec_used = g_maxteam = g_dyn_chunks = g_budget_hit = 0;
+    g_overlap = g_cs_sections = 0;
 }
 
 static uint32_t decide(uint32_t n) {
@@ -290,6 +291,7 @@ static void merge(int T) {
             unsigned char *cm = cmask[k][b];
             for (size_t i = 0; i < wn[b]; i++) if (p[i] != snap[b][i] && !(cm && cm[i])) {
                 if (wr[i] && out[i] != p[i]) g_conflict++;
+                else if (wr[i]) g_overlap++;             /* two threads left the same new value in one byte */
                 wr[i] = 1; out[i] = p[i]; g_diff++;
             }
         }
@@ -458,6 +460,13 @@ extern int PyGILState_Ensure(void);
 extern void PyGILState_Release(int);
 int __wrap_PyGILState_Ensure(void) { int st = PyGILState_Ensure(); if (in_par && team > 1) cs_enter(); return st; }
 void __wrap_PyGILState_Release(int st) { if (in_par && team > 1) cs_exit(); PyGILState_Release(st); }
+/* Cython opens every thread's part of a region with Ensure + Py_BEGIN_ALLOW_THREADS and closes it with
+ * Py_END_ALLOW_THREADS + Release: the GIL is held only between Ensure and SaveThread, and between RestoreThread and
+ * Release - the body in between runs without it and is no critical section. */
+extern void *PyEval_SaveThread(void);
+extern void PyEval_RestoreThread(void *);
+void *__wrap_PyEval_SaveThread(void) { if (in_par && team > 1) cs_exit(); return PyEval_SaveThread(); }
+void __wrap_PyEval_RestoreThread(void *ts) { PyEval_RestoreThread(ts); if (in_par && team > 1) cs_enter(); }
 
 /* Work-sharing loops with dynamic / guided / runtime schedules: chunks are
  * handed out to whoever asks, and who asks next is the scheduler's decision
